@@ -27,6 +27,8 @@ func runC05(p *core.Prog, r *core.Report) {
 	c05R3(p, r)
 	c05R6(p, r, "C05.R6")
 	afterFailureRule(p, r, "C05.R7")
+	// the layout upload writes into a file nobody else can have open: a temp file with a fresh name (shared with C07.R1)
+	c07R1(p, r, "C05.R8")
 }
 
 // afterFailureRule: when the last upload step failed, the upload is over. The function cancels the
